@@ -66,6 +66,10 @@ impl StatementBatch {
             }
             StatementBatch::Timeout(t) => {
                 let task = ctx.task();
+                // a task that has ended does not time out any more
+                if task.state().is_completed() {
+                    return Ok(());
+                }
                 let key = format!("{}{}", consts::IS_TIMEOUT_PROCESSED_PREFIX, t.on);
                 let is_timeout_processed = task
                     .with_data(|data| data.get::<bool>(&key))
